@@ -631,7 +631,7 @@ def validators(ctx):
                         ok = ok and T.mentions(l, lambda z: z == ("param", p)) and l != P(p)
                     else:
                         ok = ok and l == P(p)
-            cs = {(e.fi.name, q.short(e.args[0], 20)) for e in tr.calls() if e.d.get("fi") is not None and e.fi.name in ("_validate_X", "_validate_y") and len(e.stack) == 1}
+            cs = {(e.fi.name, q.short(e.args[0], 20)) for e in tr.calls() if e.d.get("fi") is not None and e.fi.name in ("_validate_X", "_validate_y") and not any(f.name in ("_validate_X", "_validate_y") for f in e.stack)}   # from _validate_input or a helper it delegates to
             ok = ok and cs == {("_validate_X", "X"), ("_validate_y", "y_true"), ("_validate_y", "y_pred")}
         ctx.ob("TAB-validate", base + "._validate_input", "each given argument goes through its own validator, None passes through, result order (X, y_true, y_pred)", ok,
                q.short(tr.retval, 200) if tr.retval is not None else "")
